@@ -196,3 +196,38 @@ func Hex(b []byte) string {
 func Str(s string) string {
 	return "\"" + strings.ReplaceAll(s, "\"", "\"\"") + "\""
 }
+
+// Bytes renders a byte string compactly: long runs of one byte become `rep n b`, the rest hex.
+func Bytes(b []byte) string {
+	if len(b) <= 96 {
+		return Hex(b)
+	}
+	var parts []string
+	i := 0
+	for i < len(b) {
+		j := i
+		for j < len(b) && b[j] == b[i] {
+			j++
+		}
+		if j-i >= 48 {
+			parts = append(parts, fmt.Sprintf("rep %d%%N (n2b %d%%N)", j-i, b[i]))
+			i = j
+			continue
+		}
+		// literal segment up to the next long run
+		k := i
+		for k < len(b) {
+			m := k
+			for m < len(b) && b[m] == b[k] {
+				m++
+			}
+			if m-k >= 48 {
+				break
+			}
+			k = m
+		}
+		parts = append(parts, Hex(b[i:k]))
+		i = k
+	}
+	return "(" + strings.Join(parts, " ++ ") + ")"
+}
